@@ -380,7 +380,9 @@ class C20(Prop):
         if op in getattr(self, "_unpinned", ()) and line.startswith("ret="):
             _, kv = C.fields(line)
             return ("past-limit", kv.get("pre"), kv.get("tb"), kv.get("ref"))
-        return line if line.startswith("ret=") else line[:40]
+        # the follow-up write (`after=`) is judged by the relation only: whether it may cross the
+        # limit is not pinned
+        return line.rsplit(" after=", 1)[0] if line.startswith("ret=") else line[:40]
 
     def relation(self, ops, impl):
         out = []
@@ -404,6 +406,11 @@ class C20(Prop):
                     problems.append("write below the size limit failed")
                 if len(enc) <= 65552 and tb != C.hexs(enc):
                     problems.append("to_bytes differs from the encoding")
+            # the writer used again: below its limit it must accept one more byte, whether the first
+            # value was refused (nothing written) or appended
+            grown = len(pre) + (len(enc) if enc is not None and ret.startswith("ok:") else 0)
+            if kv.get("after") == "odd" or (kv.get("after") == "err" and (enc is None or ret.startswith("ok:")) and grown + 1 <= 65551):
+                problems.append("a later write into the same writer, still below its size limit, does not append its byte (after=%s)" % kv.get("after"))
             if problems:
                 out.append(Violation("relation", op[:300], il[:300], None, "; ".join(problems)))
         return out
